@@ -6,6 +6,8 @@ package main
 // RuleClient.Run, or client.VerifRuleProcess: ruleProcessPoints alone) which
 // publishes on an in-process NATS server; the points it sends are captured by
 // a subscriber on "p.>".
+// Cases of kind "config" (c13cfg.go) also drive the configuration-change path
+// of Run (hook client.VerifRuleRunConfig).
 
 import (
 	"crypto/sha1"
@@ -46,6 +48,12 @@ type c13Cond struct {
 	End      string   `json:"end,omitempty"`
 	Weekdays []bool   `json:"weekdays,omitempty"`
 	Dates    []string `json:"dates,omitempty"`
+	// kind "config" only: when set, Start / End are recomputed when the case is run as
+	// "the current UTC time plus this many minutes" (the trigger time of a configuration
+	// change is time.Now(), so a window that is to contain / miss it must be placed
+	// relative to the clock; a replay file stays meaningful at any time of day)
+	StartOff *int `json:"start_off,omitempty"`
+	EndOff   *int `json:"end_off,omitempty"`
 }
 
 type c13Act struct {
@@ -76,6 +84,9 @@ type c13Pt struct {
 	Bits string `json:"bits"`
 	V    string `json:"v"`
 	Text string `json:"text"`
+	// kind "config", points of type start / end only: Text is recomputed when the case
+	// is run as the current UTC time plus this many minutes
+	Off *int `json:"off,omitempty"`
 }
 
 type c13Out struct {
@@ -88,6 +99,10 @@ type c13Out struct {
 }
 
 type c13Step struct {
+	// Cfg (kind "config" only): Node / Pts are points for the rule node or one of its
+	// children handed to the client through newPoints (a configuration change), not a
+	// batch of points seen on the "up" subscription
+	Cfg  bool    `json:"cfg,omitempty"`
 	Node string  `json:"node"`
 	Pts  []c13Pt `json:"pts"`
 	// observed
@@ -96,13 +111,20 @@ type c13Step struct {
 	Active  bool     `json:"obs_active"`
 	Changed bool     `json:"obs_changed"`
 	Err     string   `json:"obs_err,omitempty"`
+	// kind "config": the schedule handles of the conditions of Rule; for a configuration
+	// change the handle given to the edited schedule (if start / end were edited) and an
+	// instant of the interval in which the client read time.Now() (Unix ns)
+	Handles  []int `json:"obs_handles,omitempty"`
+	Sched    *int  `json:"obs_sched,omitempty"`
+	TrigTime int64 `json:"obs_time,omitempty"`
 }
 
 type c13Win struct {
-	Cond int    `json:"cond"`
-	Time int64  `json:"time"`
-	Res  int    `json:"res"` // 0 outside, 1 inside, 2 error
-	Err  string `json:"err,omitempty"`
+	Handle int    `json:"handle"` // schedule handle: the condition's index, or the handle assigned at a schedule edit
+	Cond   int    `json:"cond"`
+	Time   int64  `json:"time"`
+	Res    int    `json:"res"` // 0 outside, 1 inside, 2 error
+	Err    string `json:"err,omitempty"`
 }
 
 type c13Fcmp struct {
@@ -116,7 +138,7 @@ type c13Fcmp struct {
 
 type c13Case struct {
 	ID      int       `json:"id"`
-	Kind    string    `json:"kind"` // history | fcmp
+	Kind    string    `json:"kind"` // history | fcmp | config
 	Mode    int       `json:"mode"` // 0 = run closure of RuleClient.Run, 1 = ruleProcessPoints alone
 	Rule    c13Rule   `json:"rule"`
 	Steps   []c13Step `json:"steps"`
@@ -276,6 +298,9 @@ func c13RunCase(env *c13Env, c *c13Case) error {
 		c.Fcmp.Lt, c.Fcmp.Gt, c.Fcmp.Eq, c.Fcmp.Ne = a < b, a > b, a == b, a != b
 		return nil
 	}
+	if c.Kind == "config" {
+		return c13RunConfigCase(env, c)
+	}
 	// schedule windows: the real activeForTime for every schedule condition at every trigger time
 	c.Windows = []c13Win{}
 	seen := map[string]bool{}
@@ -293,7 +318,7 @@ func c13RunCase(env *c13Env, c *c13Case) error {
 					continue
 				}
 				seen[k] = true
-				w := c13Win{Cond: i, Time: p.Time}
+				w := c13Win{Handle: i, Cond: i, Time: p.Time}
 				in, err := client.VerifRuleScheduleActive(c13ToCond(cd, c.Rule.ID), time.Unix(0, p.Time).UTC())
 				switch {
 				case err != nil:
@@ -355,10 +380,17 @@ func c13CondVal(i int, c c13Cond) string {
 func c13ActVal(a c13Act) string {
 	return vL(vS(a.ID), vS(a.Action), vS(a.Node), vS(a.PType), c13BitsVal(a.Bits), vS(a.VText), vBool(a.Active), vS(a.Error))
 }
-func c13RuleVal(r *c13Rule) string {
+func c13RuleVal(r *c13Rule) string { return c13RuleValH(r, nil) }
+
+// handles: the schedule handle of every condition (nil: the condition's index)
+func c13RuleValH(r *c13Rule, handles []int) string {
 	cs := make([]string, len(r.Conds))
 	for i, c := range r.Conds {
-		cs[i] = c13CondVal(i, c)
+		h := i
+		if i < len(handles) {
+			h = handles[i]
+		}
+		cs[i] = c13CondVal(h, c)
 	}
 	as := make([]string, len(r.Acts))
 	for i, a := range r.Acts {
@@ -371,6 +403,22 @@ func c13RuleVal(r *c13Rule) string {
 	return vL(vS(r.ID), vBool(r.Active), vS(r.Error), vL(cs...), vL(as...), vL(is...))
 }
 
+func c13PtsVal(pts []c13Pt) string {
+	ps := make([]string, len(pts))
+	for j, p := range pts {
+		ps[j] = vL(vS(p.Type), vS(p.Key), vZ(p.Time), c13BitsVal(p.Bits), vS(p.Text))
+	}
+	return vL(ps...)
+}
+
+func c13SentVal(sent []c13Out) string {
+	os := make([]string, len(sent))
+	for j, o := range sent {
+		os[j] = vL(vS(o.Node), vS(o.Type), vS(o.Key), c13BitsVal(o.Bits), vS(o.Text), vS(o.Origin))
+	}
+	return vL(os...)
+}
+
 func c13Val(c *c13Case) string {
 	if c.Kind == "fcmp" {
 		f := c.Fcmp
@@ -378,19 +426,14 @@ func c13Val(c *c13Case) string {
 	}
 	ws := make([]string, len(c.Windows))
 	for i, w := range c.Windows {
-		ws[i] = vL(vI(w.Cond), vZ(w.Time), vI(w.Res), vS(w.Err))
+		ws[i] = vL(vI(w.Handle), vZ(w.Time), vI(w.Res), vS(w.Err))
+	}
+	if c.Kind == "config" {
+		return c13ConfigVal(c, ws)
 	}
 	ss := make([]string, len(c.Steps))
 	for i, st := range c.Steps {
-		ps := make([]string, len(st.Pts))
-		for j, p := range st.Pts {
-			ps[j] = vL(vS(p.Type), vS(p.Key), vZ(p.Time), c13BitsVal(p.Bits), vS(p.Text))
-		}
-		os := make([]string, len(st.Sent))
-		for j, o := range st.Sent {
-			os[j] = vL(vS(o.Node), vS(o.Type), vS(o.Key), c13BitsVal(o.Bits), vS(o.Text), vS(o.Origin))
-		}
-		ss[i] = vL(vS(st.Node), vL(ps...), c13RuleVal(st.Rule), vL(os...), vBool(st.Active), vBool(st.Changed), vBool(st.Err != ""))
+		ss[i] = vL(vS(st.Node), c13PtsVal(st.Pts), c13RuleVal(st.Rule), c13SentVal(st.Sent), vBool(st.Active), vBool(st.Changed), vBool(st.Err != ""))
 	}
 	return vL("0", vI(c.Mode), c13RuleVal(&c.Rule), vL(ws...), vL(ss...))
 }
@@ -637,41 +680,46 @@ func c13Gen(r *rand.Rand, id int) *c13Case {
 	}
 	ns := 1 + r.Intn(10)
 	for s := 0; s < ns; s++ {
-		st := c13Step{Sent: []c13Out{}}
-		if hasSched && r.Intn(3) == 0 {
-			// the schedule ticker: one trigger point attributed to the rule itself
-			st.Node = rule.ID
-			st.Pts = []c13Pt{c13GenTrigger(r, rule)}
-			if r.Intn(8) == 0 {
-				st.Node = c13Pick(r, c13Nodes)
-			}
-		} else {
-			st.Node = c13Pick(r, c13Nodes)
-			if r.Intn(10) < 6 {
-				// prefer a node some condition listens to
-				cd := rule.Conds[r.Intn(len(rule.Conds))]
-				if cd.Node != "" {
-					st.Node = cd.Node
-				}
-			}
-			if r.Intn(25) == 0 {
-				st.Node = c13Pick(r, []string{"stranger", rule.ID})
-			}
-			np := 1
-			if r.Intn(3) == 0 {
-				np = 2 + r.Intn(4)
-			}
-			for k := 0; k < np; k++ {
-				if hasSched && r.Intn(12) == 0 {
-					st.Pts = append(st.Pts, c13GenTrigger(r, rule))
-				} else {
-					st.Pts = append(st.Pts, c13GenPoint(r, rule))
-				}
-			}
-		}
-		c.Steps = append(c.Steps, st)
+		c.Steps = append(c.Steps, c13GenBatch(r, rule, hasSched))
 	}
 	return c
+}
+
+// one batch of points: the schedule ticker's trigger point, or 1-5 points from a node
+func c13GenBatch(r *rand.Rand, rule *c13Rule, hasSched bool) c13Step {
+	st := c13Step{Sent: []c13Out{}}
+	if hasSched && r.Intn(3) == 0 {
+		// the schedule ticker: one trigger point attributed to the rule itself
+		st.Node = rule.ID
+		st.Pts = []c13Pt{c13GenTrigger(r, rule)}
+		if r.Intn(8) == 0 {
+			st.Node = c13Pick(r, c13Nodes)
+		}
+	} else {
+		st.Node = c13Pick(r, c13Nodes)
+		if r.Intn(10) < 6 {
+			// prefer a node some condition listens to
+			cd := rule.Conds[r.Intn(len(rule.Conds))]
+			if cd.Node != "" {
+				st.Node = cd.Node
+			}
+		}
+		if r.Intn(25) == 0 {
+			st.Node = c13Pick(r, []string{"stranger", rule.ID})
+		}
+		np := 1
+		if r.Intn(3) == 0 {
+			np = 2 + r.Intn(4)
+		}
+		for k := 0; k < np; k++ {
+			if hasSched && r.Intn(12) == 0 {
+				st.Pts = append(st.Pts, c13GenTrigger(r, rule))
+			} else {
+				st.Pts = append(st.Pts, c13GenPoint(r, rule))
+			}
+		}
+	}
+	return st
 }
 
 func c13GenFcmp(r *rand.Rand, id int) *c13Case {
@@ -776,14 +824,15 @@ func c13Grid(startID int) []*c13Case {
 func c13Digest(c *c13Case) string {
 	h := sha1.New()
 	type stepIn struct {
+		Cfg  bool
 		Node string
 		Pts  []c13Pt
 	}
 	var steps []stepIn
 	for _, s := range c.Steps {
-		steps = append(steps, stepIn{s.Node, s.Pts})
+		steps = append(steps, stepIn{s.Cfg, s.Node, s.Pts})
 	}
-	b, _ := json.Marshal([]any{c.Mode, c.Rule, steps})
+	b, _ := json.Marshal([]any{c.Kind, c.Mode, c.Rule, steps})
 	h.Write(b)
 	return hex.EncodeToString(h.Sum(nil))[:16]
 }
@@ -817,11 +866,15 @@ func c13Run(cfg *config) error {
 		for i := 0; i < 300*cfg.scale; i++ {
 			cases = append(cases, c13GenFcmp(r, n+i))
 		}
+		// histories with configuration changes (kind "config", c13cfg.go)
+		for i := 0; i < 550*cfg.scale; i++ {
+			cases = append(cases, c13GenConfig(r, len(cases)))
+		}
 		if cfg.tier == "thorough" || cfg.search {
 			cases = append(cases, c13Grid(len(cases))...)
 		}
 	}
-	nsamples := 0
+	nsamples, ncfgsamples := 0, 0
 	for i, c := range cases {
 		c.ID = i
 		if err := c13RunCase(env, c); err != nil {
@@ -832,7 +885,19 @@ func c13Run(cfg *config) error {
 		if c.Kind == "fcmp" {
 			continue
 		}
-		cs.count(fmt.Sprintf("mode:%d", c.Mode))
+		if c.Kind == "config" {
+			hasSched := false
+			for _, cd := range c.Rule.Conds {
+				hasSched = hasSched || cd.CType == data.PointValueSchedule
+			}
+			if hasSched {
+				cs.count("config:rule-with-schedule")
+			} else {
+				cs.count("config:rule-without-schedule")
+			}
+		} else {
+			cs.count(fmt.Sprintf("mode:%d", c.Mode))
+		}
 		cs.count(fmt.Sprintf("conditions:%d", len(c.Rule.Conds)))
 		cs.count(fmt.Sprintf("actions:%d", len(c.Rule.Acts)))
 		cs.count(fmt.Sprintf("actionsInactive:%d", len(c.Rule.IActs)))
@@ -859,11 +924,38 @@ func c13Run(cfg *config) error {
 		}
 		nontrivial := false
 		prev := &c.Rule
-		for _, st := range c.Steps {
+		cfgFlip := false
+		for si := range c.Steps {
+			st := &c.Steps[si]
 			cs.count("steps")
+			if st.Cfg {
+				cs.count("step:config-change")
+				cs.count("config-edit:" + c13ConfigStepClass(prev, st))
+			} else if c.Kind == "config" {
+				cs.count("step:batch-in-config-history")
+			}
 			if st.Err != "" {
 				cs.count("step:hook-error")
 				continue
+			}
+			if st.Cfg && st.Rule.Active != prev.Active {
+				// the rule's state flips on the configuration-change path
+				cfgFlip = true
+				opp := prev.Acts
+				if st.Rule.Active {
+					cs.count("config:rule-activated")
+					opp = prev.IActs
+				} else {
+					cs.count("config:rule-deactivated")
+				}
+				for _, a := range opp {
+					if a.Active {
+						cs.count("config:flip-with-opposite-list-active")
+						break
+					}
+				}
+			} else if st.Cfg {
+				cs.count("config:state-unchanged")
 			}
 			if st.Rule.Active != prev.Active {
 				nontrivial = true
@@ -894,9 +986,13 @@ func c13Run(cfg *config) error {
 		// non-trivial: some condition or the rule changes state somewhere in the history
 		if nontrivial {
 			cs.markNontrivial(c13Digest(c))
-			if nsamples < 2 && len(c.Steps) <= 3 && len(c.Rule.Conds) <= 2 {
+			if c.Kind != "config" && nsamples < 2 && len(c.Steps) <= 3 && len(c.Rule.Conds) <= 2 {
 				cs.samples = append(cs.samples, c)
 				nsamples++
+			}
+			if cfgFlip && ncfgsamples < 1 && len(c.Steps) <= 2 && len(c.Rule.Conds) <= 2 {
+				cs.samples = append(cs.samples, c)
+				ncfgsamples++
 			}
 		}
 	}
